@@ -40,14 +40,14 @@ pub fn eval_host_image(run: &Run, m: &M, img: &[u8], ids: &[(Sub, Hash)], st: &m
         }
         .materialise(dir);
         match mc::catch(|| open_host(dir)) {
-            Err(p) => st.viol(format!("c11:{cls}:enable_runtime_wal:panic"), json!({"case": case, "panic": p})),
+            Err(p) => st.viol(format!("c11:{cls}:panic:enable_runtime_wal"), json!({"case": case, "panic": p})),
             Ok(Err((stage, e))) => st.outcome(&format!("err:{}@host:{stage}", errkind(&e))),
             Ok(Ok(mut host)) => {
                 let fp = fingerprint(&mut host, ids);
                 let k = (0..=n).find(|k| run.fps[run.fp_index_for_k(*k)] == fp);
                 match k {
                     None => st.viol(
-                        format!("c11:{cls}:enable_runtime_wal:recovered-state-is-not-a-committed-prefix"),
+                        format!("c11:{cls}:recovered-state-is-not-a-committed-prefix:enable_runtime_wal"),
                         json!({"case": case, "fingerprint": fp, "final_fingerprint_of_original": run.fps.last()}),
                     ),
                     Some(k) if k == n => {
@@ -55,8 +55,10 @@ pub fn eval_host_image(run: &Run, m: &M, img: &[u8], ids: &[(Sub, Hash)], st: &m
                             M::Flip { off, .. } | M::Zero { off, .. } => frame::region_of(&run.records, *off),
                             _ => "record",
                         };
-                        if m.byte_level() {
-                            st.viol(format!("c11:{}:enable_runtime_wal:undetected-byte-damage:{reg}", family(m)), json!({"case": case}));
+                        if m.appends_after_log() {
+                            st.viol(format!("c11:{cls}:trailing-content-silently-ignored:enable_runtime_wal"), json!({"case": case}));
+                        } else if m.byte_level() {
+                            st.viol(format!("c11:{}:undetected-byte-damage:{reg}:enable_runtime_wal", family(m)), json!({"case": case}));
                         } else {
                             st.outcome(&format!("host-ok:absorbed-full-state:{cls}"));
                         }
